@@ -34,7 +34,7 @@ from bind import c02
 PROP = "C01"
 NEW = "zz"
 
-MAIN_GROUPS = ["core", "nest", "blocks", "methods", "core2", "defnames", "targets", "comp", "calls", "decoys", "modules"]
+MAIN_GROUPS = ["core", "nest", "blocks", "methods", "decos", "attrs", "core2", "defnames", "targets", "comp", "calls", "decoys", "modules"]
 FEATURE_GROUPS = ["params", "stmts", "walrus", "lambda"]
 
 _ROOT = None
@@ -108,7 +108,7 @@ def run_deinlined(r, files=None):
         files = r.files
     else:
         main = ps.deinline(files[r.main], brackets_after(r, files[r.main]))
-    if r.lib_path is None:
+    if not r.multi:
         return ps.execute(main)
     return ps.execute_project(dict(files, **{r.main: main}), r.main, r.outside)
 
@@ -380,7 +380,7 @@ def run_case(item):
                 except SyntaxError:
                     iso = False
                 main_after = rp.main
-                if r.lib_path is None:
+                if not r.multi:
                     o2, e2 = ps.execute(summary["main_after"])
                 else:
                     o2, e2 = ps.execute_project(res["files"], main_after, r.outside)
